@@ -5,6 +5,8 @@ import CookModel.Lemmas.ExtLawsTimer
 import CookModel.Lemmas.ExtLawsAnalysisFull
 import CookModel.Lemmas.ExtLawsEvents
 import CookModel.Lemmas.ExtLawsLocal
+import CookModel.Lemmas.ExtLawsSingle
+import CookModel.Lemmas.ExtLawsValue
 import CookModel.Lemmas.LexLaws
 /-
   C02  Core-syntax recipes parse identically under every extension subset.
@@ -363,6 +365,152 @@ example : AgreeOn parserFlagsNoModes ⟨Gen.EXT_MODES⟩ ⟨0⟩ ∧ AgreeOn par
     simp only [parserFlags, List.mem_cons, List.mem_nil_iff, or_false] at hg
     rcases hg with rfl | rfl | rfl | rfl | rfl | rfl | rfl <;> decide
 
+
+/-! ### Single-flag locality in the parser, with the other extensions' constructs present
+
+  `otherFlags fs`: the parser flags except those of `fs`.  For each flag (pair of flags for
+  COMPONENT_MODIFIERS / INTERMEDIATE_PREPARATIONS) a token-level clause says that ITS trigger does not
+  occur in the block; two extension sets that agree on all OTHER parser flags then give the same
+  events on the block — the block may use every other extension's syntax (which is then read alike
+  because the two sets agree on those flags).  This closes the gap noted above ("the single-flag
+  block-level versions with the other constructs present are not proved"). -/
+
+/-- the parser flags other than those of `fs` -/
+def otherFlags (fs : List Nat) : List Nat := parserFlags.filter (fun g => !fs.contains g)
+
+/-- The general form.  `LocalTo G cs block`: for every parser flag NOT in `G` the block does not
+    contain the syntax that flag reinterprets (one clause per flag: `modsCore`, `aliasCore`,
+    `rangeCore`, `advCore`, `timerCore`, `metaKeyCore`).  Then any two extension sets that agree on
+    the flags of `G` give the same events and panic flag on the block, whatever events came before.
+    `G = []` is `C02_parser_ext_irrelevant`, `G = parserFlags` is `C02_parser_flags_only`, `G` = all
+    flags but MODES is `C02_modes_local`; every other mixture is new. -/
+theorem C02_flags_local (G : List Nat) (cs : CharSpec) (e₁ e₂ : Ext) (oldStyle : Bool) (block : List Tok)
+    (evs : Array (Ev α)) (p : Option String) (ha : AgreeOn G e₁ e₂) (h : LocalTo G cs block) :
+    runBlock cs e₁ oldStyle block evs p = runBlock cs e₂ oldStyle block evs p :=
+  runBlock_local cs e₁ e₂ oldStyle block evs p ha h
+
+/-- COMPONENT_MODIFIERS and INTERMEDIATE_PREPARATIONS change only components whose marker is followed
+    by one of `@ & ? + -`: on a block where no marker `@ # ~` is followed by such a character
+    (`modsCore`), two extension sets that agree on the other five parser flags give the same events —
+    the block may contain aliases, ranges, advanced units, timers without quantity, `>> [key]` lines. -/
+theorem C02_modifiers_local (cs : CharSpec) (e₁ e₂ : Ext) (oldStyle : Bool) (block : List Tok)
+    (evs : Array (Ev α)) (p : Option String)
+    (ha : AgreeOn (otherFlags [Gen.EXT_COMPONENT_MODIFIERS, Gen.EXT_INTERMEDIATE_PREPARATIONS]) e₁ e₂)
+    (h : modsCore block = true) :
+    runBlock cs e₁ oldStyle block evs p = runBlock cs e₂ oldStyle block evs p :=
+  runBlock_local cs e₁ e₂ oldStyle block evs p ha
+    ⟨Or.inr h, Or.inl (by decide), Or.inl (by decide), Or.inl (by decide), Or.inl (by decide), Or.inl (by decide)⟩
+
+/-- COMPONENT_ALIAS changes only names with a `|`: on a block where no long-form body `name{…}` has a
+    `|` among its name tokens, wherever the name is taken to start (`aliasCore`: no `|` between a `{`
+    and the nearest marker or `{` before it; a single-word name cannot contain one), two extension
+    sets that agree on the other six parser flags give the same events — the block may contain
+    modifiers, intermediate references, ranges, advanced units, timers without quantity, `>> [key]` lines. -/
+theorem C02_alias_local (cs : CharSpec) (e₁ e₂ : Ext) (oldStyle : Bool) (block : List Tok)
+    (evs : Array (Ev α)) (p : Option String) (ha : AgreeOn (otherFlags [Gen.EXT_COMPONENT_ALIAS]) e₁ e₂)
+    (h : aliasCore block = true) :
+    runBlock cs e₁ oldStyle block evs p = runBlock cs e₂ oldStyle block evs p :=
+  runBlock_local cs e₁ e₂ oldStyle block evs p ha
+    ⟨Or.inl ⟨by decide, by decide⟩, Or.inr h, Or.inl (by decide), Or.inl (by decide), Or.inl (by decide),
+     Or.inl (by decide)⟩
+
+/-- RANGE_VALUES changes only quantities with a `-`: on a block where no `{quantity}` of a long-form
+    body contains a `-` token (`rangeCore`), two extension sets that agree on the other six parser
+    flags give the same events — in particular with ADVANCED_UNITS on in both, whose parser reads the
+    range flag too. -/
+theorem C02_range_local (cs : CharSpec) (e₁ e₂ : Ext) (oldStyle : Bool) (block : List Tok)
+    (evs : Array (Ev α)) (p : Option String) (ha : AgreeOn (otherFlags [Gen.EXT_RANGE_VALUES]) e₁ e₂)
+    (h : rangeCore block = true) :
+    runBlock cs e₁ oldStyle block evs p = runBlock cs e₂ oldStyle block evs p :=
+  runBlock_local cs e₁ e₂ oldStyle block evs p ha
+    ⟨Or.inl ⟨by decide, by decide⟩, Or.inl (by decide), Or.inr h, Or.inl (by decide), Or.inl (by decide),
+     Or.inl (by decide)⟩
+
+/-- ADVANCED_UNITS changes (in the parser) only quantities of the shape value, blank, word without `%`:
+    on a block every `{quantity}` of which the advanced parser declines (`advCore`: it contains a
+    `%`, or the tokens before the first word do not end in whitespace), two extension sets that agree
+    on the other six parser flags give the same events. -/
+theorem C02_advanced_local (cs : CharSpec) (e₁ e₂ : Ext) (oldStyle : Bool) (block : List Tok)
+    (evs : Array (Ev α)) (p : Option String) (ha : AgreeOn (otherFlags [Gen.EXT_ADVANCED_UNITS]) e₁ e₂)
+    (h : advCore block = true) :
+    runBlock cs e₁ oldStyle block evs p = runBlock cs e₂ oldStyle block evs p :=
+  runBlock_local cs e₁ e₂ oldStyle block evs p ha
+    ⟨Or.inl ⟨by decide, by decide⟩, Or.inl (by decide), Or.inl (by decide), Or.inr h, Or.inl (by decide),
+     Or.inl (by decide)⟩
+
+/-- TIMER_REQUIRES_TIME changes only timers without a quantity: on a block where every `~` is followed
+    by a non-modifier token and starts a timer WITH a non-blank `{quantity}` or no timer at all
+    (`timerCore`), two extension sets that agree on the other six parser flags give the same events —
+    ingredients and cookware may use every extension's syntax. -/
+theorem C02_timer_time_local (cs : CharSpec) (e₁ e₂ : Ext) (oldStyle : Bool) (block : List Tok)
+    (evs : Array (Ev α)) (p : Option String) (ha : AgreeOn (otherFlags [Gen.EXT_TIMER_REQUIRES_TIME]) e₁ e₂)
+    (h : timerCore block = true) :
+    runBlock cs e₁ oldStyle block evs p = runBlock cs e₂ oldStyle block evs p :=
+  runBlock_local cs e₁ e₂ oldStyle block evs p ha
+    ⟨Or.inl ⟨by decide, by decide⟩, Or.inl (by decide), Or.inl (by decide), Or.inl (by decide), Or.inr h,
+     Or.inl (by decide)⟩
+
+/-- … and on whole inputs: if the flag's clause holds for every block of the input, the event stream
+    of the pull parser is the same under two extension sets that agree on the other parser flags
+    (one statement for the five cases; `c` is the clause, `fs` the flag(s)) -/
+theorem C02_single_flag_local_input (cs : CharSpec) (e₁ e₂ : Ext) (input : List Char) :
+    (AgreeOn (otherFlags [Gen.EXT_COMPONENT_MODIFIERS, Gen.EXT_INTERMEDIATE_PREPARATIONS]) e₁ e₂ →
+      AllBlocksOf cs input modsCore = true → pullEvents (α := α) cs e₁ input = pullEvents cs e₂ input) ∧
+    (AgreeOn (otherFlags [Gen.EXT_COMPONENT_ALIAS]) e₁ e₂ →
+      AllBlocksOf cs input aliasCore = true → pullEvents (α := α) cs e₁ input = pullEvents cs e₂ input) ∧
+    (AgreeOn (otherFlags [Gen.EXT_RANGE_VALUES]) e₁ e₂ →
+      AllBlocksOf cs input rangeCore = true → pullEvents (α := α) cs e₁ input = pullEvents cs e₂ input) ∧
+    (AgreeOn (otherFlags [Gen.EXT_ADVANCED_UNITS]) e₁ e₂ →
+      AllBlocksOf cs input advCore = true → pullEvents (α := α) cs e₁ input = pullEvents cs e₂ input) ∧
+    (AgreeOn (otherFlags [Gen.EXT_TIMER_REQUIRES_TIME]) e₁ e₂ →
+      AllBlocksOf cs input timerCore = true → pullEvents (α := α) cs e₁ input = pullEvents cs e₂ input) :=
+  ⟨fun ha h => pullEvents_congr cs e₁ e₂ input _ h
+      (fun oldStyle b hb evs p => C02_modifiers_local cs e₁ e₂ oldStyle b evs p ha hb),
+   fun ha h => pullEvents_congr cs e₁ e₂ input _ h
+      (fun oldStyle b hb evs p => C02_alias_local cs e₁ e₂ oldStyle b evs p ha hb),
+   fun ha h => pullEvents_congr cs e₁ e₂ input _ h
+      (fun oldStyle b hb evs p => C02_range_local cs e₁ e₂ oldStyle b evs p ha hb),
+   fun ha h => pullEvents_congr cs e₁ e₂ input _ h
+      (fun oldStyle b hb evs p => C02_advanced_local cs e₁ e₂ oldStyle b evs p ha hb),
+   fun ha h => pullEvents_congr cs e₁ e₂ input _ h
+      (fun oldStyle b hb evs p => C02_timer_time_local cs e₁ e₂ oldStyle b evs p ha hb)⟩
+
+/-- `@?a{1-2 kg} ~b`: a modifier, a range, advanced units, a timer without quantity — but no `|` -/
+def C02.mixedBlock : List Tok := C02.toks [(.at, ['@']), (.question, ['?']), (.word, ['a']), (.openBrace, ['{']),
+  (.int, ['1']), (.minus, ['-']), (.int, ['2']), (.ws, [' ']), (.word, ['k','g']), (.closeBrace, ['}']), (.ws, [' ']),
+  (.tilde, ['~']), (.word, ['b'])]
+
+/-- `@a|b{2%kg} #c{} ~{5%min}`: an alias — but no modifier, range, advanced unit, quantity-less timer -/
+def C02.aliasBlock : List Tok := C02.toks [(.at, ['@']), (.word, ['a']), (.or, ['|']), (.word, ['b']), (.openBrace, ['{']),
+  (.int, ['2']), (.percent, ['%']), (.word, ['k','g']), (.closeBrace, ['}']), (.ws, [' ']), (.hash, ['#']), (.word, ['c']),
+  (.openBrace, ['{']), (.closeBrace, ['}']), (.ws, [' ']), (.tilde, ['~']), (.openBrace, ['{']), (.int, ['5']),
+  (.percent, ['%']), (.word, ['m','i','n']), (.closeBrace, ['}'])]
+
+/-- the clauses are satisfiable in the presence of the OTHER extensions' syntax, and each is violated
+    by its own trigger: the first block satisfies the alias clause only, the second all but it -/
+example : aliasCore C02.mixedBlock = true ∧ modsCore C02.mixedBlock = false ∧ rangeCore C02.mixedBlock = false ∧
+    advCore C02.mixedBlock = false ∧ timerCore C02.mixedBlock = false := by decide
+example : aliasCore C02.aliasBlock = false ∧ modsCore C02.aliasBlock = true ∧ rangeCore C02.aliasBlock = true ∧
+    advCore C02.aliasBlock = true ∧ timerCore C02.aliasBlock = true := by decide
+
+/-- the agreement hypotheses are satisfiable by sets that really differ in the flag: `{f}` and `∅`
+    agree on the other flags -/
+example : AgreeOn (otherFlags [Gen.EXT_COMPONENT_ALIAS]) ⟨Gen.EXT_COMPONENT_ALIAS⟩ ⟨0⟩ ∧
+    AgreeOn (otherFlags [Gen.EXT_RANGE_VALUES]) ⟨Gen.EXT_RANGE_VALUES⟩ ⟨0⟩ ∧
+    AgreeOn (otherFlags [Gen.EXT_ADVANCED_UNITS]) ⟨Gen.EXT_ADVANCED_UNITS⟩ ⟨0⟩ ∧
+    AgreeOn (otherFlags [Gen.EXT_TIMER_REQUIRES_TIME]) ⟨Gen.EXT_TIMER_REQUIRES_TIME⟩ ⟨0⟩ ∧
+    AgreeOn (otherFlags [Gen.EXT_COMPONENT_MODIFIERS, Gen.EXT_INTERMEDIATE_PREPARATIONS])
+      ⟨Gen.EXT_COMPONENT_MODIFIERS ||| Gen.EXT_INTERMEDIATE_PREPARATIONS⟩ ⟨0⟩ := by
+  refine ⟨?_, ?_, ?_, ?_, ?_⟩ <;> (intro g hg; revert g; decide)
+
+/-- … and with all the other flags ON in both sets (`allParser` = the seven parser flags) -/
+example : let allP : Nat := Gen.EXT_COMPONENT_MODIFIERS ||| Gen.EXT_INTERMEDIATE_PREPARATIONS ||| Gen.EXT_COMPONENT_ALIAS |||
+      Gen.EXT_RANGE_VALUES ||| Gen.EXT_ADVANCED_UNITS ||| Gen.EXT_TIMER_REQUIRES_TIME ||| Gen.EXT_MODES
+    AgreeOn (otherFlags [Gen.EXT_COMPONENT_ALIAS]) ⟨allP⟩ ⟨allP ^^^ Gen.EXT_COMPONENT_ALIAS⟩ ∧
+    (⟨allP⟩ : Ext).has Gen.EXT_COMPONENT_ALIAS ≠ (⟨allP ^^^ Gen.EXT_COMPONENT_ALIAS⟩ : Ext).has Gen.EXT_COMPONENT_ALIAS := by
+  refine ⟨?_, by decide⟩
+  intro g hg; revert g; decide
+
 /-! ### The converse clause, remaining gates: a disabled extension's syntax is core text -/
 
 /-- with ADVANCED_UNITS off `parse_quantity` is exactly the regular quantity parser (value up to
@@ -373,6 +521,37 @@ theorem C02_advanced_off (q : List Tok) (s : BP α) (h : s.ext.has Gen.EXT_ADVAN
        let r := parseRegularQuantity ({ s' with toks := q, cur := 0 } : BP α)
        (r.1, { r.2 with toks := s'.toks, cur := s'.cur })) :=
   parseQuantity_advanced_off q s h
+
+/-- RANGE_VALUES and ADVANCED_UNITS, the converse clause for ALL values (not only `2-3` and `1 kg`):
+    a value whose tokens (adjacent, as the lexer delivers them: `RunAt`) contain a token that is
+    neither a blank nor one of the number tokens `int . /` (`foreignTok`: a `-`, a word, …) is not
+    numeric, so with RANGE_VALUES off `parse_value` returns the TEXT value with exactly the text of
+    the tokens (outer blanks trimmed), pushes nothing and leaves the state alone.  With
+    ADVANCED_UNITS off `parse_quantity` is the regular parser (`C02_advanced_off`), which hands all
+    tokens up to a `%` to `parse_value`: `{1 kg}` is the text value `1 kg` without unit, `{2-3}` the
+    text value `2-3`.  (The non-blank hypothesis holds as soon as the token has a non-whitespace
+    character.) -/
+theorem C02_disabled_value_is_text {off : Nat} (tokens : List Tok) (s : BP α) (hr : RunAt off tokens)
+    (hoff : s.ext.has Gen.EXT_RANGE_VALUES = false) (t : Tok) (ht : t ∈ tokens) (hk : foreignTok t.kind = true)
+    (hne : (buildText (valStart tokens s) tokens).isTextEmpty s.cs = false) :
+    parseValue tokens s =
+      (⟨.text ((buildText (valStart tokens s) tokens).trimmed s.cs), ⟨valStart tokens s, offAt s.toks s.cur⟩⟩, s) :=
+  parseValue_foreign_text tokens s hr hoff t ht hk hne
+
+/-- … because such a value is never a number, whatever else it contains -/
+theorem C02_foreign_token_not_numeric (tokens : List Tok) (t : Tok) (ht : t ∈ tokens) (hk : foreignTok t.kind = true) :
+    numericValue (α := α) tokens = none :=
+  numericValue_none_of_foreign tokens t ht hk
+
+/-- `-` and a word are such tokens; the hypotheses hold for `2-3` and for `1 kg` -/
+example : foreignTok .minus = true ∧ foreignTok .word = true ∧ foreignTok .int = false ∧ foreignTok .ws = false := by
+  decide
+example : let ts := C02.toks [(.int, ['2']), (.minus, ['-']), (.int, ['3'])]
+    let s : BP Rat := ⟨ts, 0, ⟨0⟩, toyCharSpec, #[], none⟩
+    (buildText (valStart ts s) ts).isTextEmpty s.cs = false ∧ (∃ t ∈ ts, foreignTok t.kind = true) := by decide
+example : let ts := C02.toks [(.int, ['1']), (.ws, [' ']), (.word, ['k','g'])]
+    let s : BP Rat := ⟨ts, 0, ⟨0⟩, toyCharSpec, #[], none⟩
+    (buildText (valStart ts s) ts).isTextEmpty s.cs = false ∧ (∃ t ∈ ts, foreignTok t.kind = true) := by decide
 
 /-- with MODES off the analysis treats a `>>` entry with a bracketed key as a plain entry
     (`metadataPlain`: recorded in the map, checked as a standard key) -/
